@@ -203,3 +203,18 @@ def pool_map(fn, items, procs=None, chunksize=1):
     ctx = mp.get_context("fork")
     with ctx.Pool(procs) as p:
         return p.map(fn, items, chunksize=chunksize)
+
+
+def preload():
+    """Import the library modules the watchdog-guarded replays call, BEFORE a processor-time watchdog is armed: on a freshly
+    restored tree the byte-code caches are stale and PYTHONDONTWRITEBYTECODE keeps them so - compiling numpy / scipy / the
+    library from source costs many seconds of processor time per process, which is not time spent in the call under test
+    (`vp check` 12: three C06 paths of a few milliseconds were reported as "did not terminate within 15 s")."""
+    import importlib
+    for m in ("numpy", "scipy.linalg", "pyphysim.simulations.results", "pyphysim.simulations.parameters",
+              "pyphysim.simulations.runner", "pyphysim.comm.blockdiagonalization", "pyphysim.channels.multiuser",
+              "pyphysim.cell.cell", "pyphysim.cell.shapes", "pyphysim.util.misc", "pyphysim.util.conversion"):
+        try:
+            importlib.import_module(m)
+        except Exception:      # noqa - a module that cannot be imported is reported by the replay that needs it
+            pass
